@@ -771,6 +771,10 @@ def binop(p: Path, op: type, a: Any, b: Any) -> Any:
         return a + b  # type: ignore[operator]
     if isinstance(a, list) and is_int_like(b) and op is ast.Mult and isinstance(b, int):
         return a * b
+    if isinstance(a, list) and len(a) == 1 and is_int_like(b) and op is ast.Mult:
+        # [x] * k with a symbolic count: an immutable symbolic-length sequence of x (max(k, 0) elements, as in Python)
+        tk = int_term(b)
+        return SSeq(tk if p.entails(tk >= 0) else z3.If(tk >= 0, tk, 0), lambda i, x=a[0]: x, "[x]*k")
     raise Unsupported(f"operator {op.__name__} on {type(a).__name__}, {type(b).__name__}")
 
 
